@@ -161,6 +161,16 @@ CLAIMS = {
          "python/numpy scalars, left and right, numpy ufuncs), affine point arithmetic with points at infinity and non-normalised "
          "representatives, and transpose in permutation and cycle notation.",
     design="5/C19", technique="TLC enumeration of index expressions against a numpy-indexing model + exact arithmetic table + replay"),
+ "C04": dict(
+    text="C04_Coll.tla states what a collection operation means: CollOp(A,B)[i] = Op(A[Proj(i,sa)], B[Proj(i,sb)]) on the broadcast "
+         "box (right alignment, single object = shape <<>>), certifies the broadcasting laws and that the index map covers every "
+         "element and is a bijection on full-shape arguments; TLC enumerates 61 operations x every collection shape (one or two "
+         "axes, length 1 included) x every mix of single and collection arguments x contents picked from lattice pools, and emits "
+         "for every result position which element of every argument it must be computed from.  The property is relational: the "
+         "replay stacks real single objects accordingly and compares every position with the same operation on the singles "
+         "(exceptions and dependent_values masks included); indexing, negative indexing, iteration and two-axis indexing of every "
+         "collection class must give the element class with its attributes (is_dual, pdim, index types, covariant 3D lines).",
+    design="5/C04", technique="TLC enumeration of operation x shape x single/collection mixes with a broadcast index-map spec + replay against singles"),
 }
 
 checks = []
